@@ -99,7 +99,10 @@ func newSim(t vk.TB, c *stats.Collector, cfg simCfg) *sim {
 		s.dir = vk.Scratch("sess-")
 		factory = storekit.FileFactory(s.dir, false, id)
 	}
-	set := map[string]string{}
+	// SendingTime comes from the real clock when a frame is built; frames may wait in the link
+	// queue and the machine may stall, so the latency window is made irrelevant here (C06, which
+	// is about that window, configures its own and guards against stalls)
+	set := map[string]string{config.MaxLatency: "100000000"}
 	for k, v := range cfg.settings {
 		set[k] = v
 	}
@@ -122,7 +125,13 @@ func (s *sim) close() {
 	}
 }
 
-func (s *sim) logf(format string, a ...interface{}) { s.log = append(s.log, fmt.Sprintf(format, a...)) }
+func (s *sim) logf(format string, a ...interface{}) {
+	s.log = append(s.log, fmt.Sprintf(format, a...))
+	if len(s.log) > 6000 {
+		// keep memory bounded on very long scenarios: the tail is what failure messages show
+		s.log = append(s.log[:0:0], s.log[len(s.log)-3000:]...)
+	}
+}
 
 func (s *sim) history() string {
 	l := s.log
